@@ -220,7 +220,7 @@ fn quad_prop(inp: &[u8; 36], fwd: bool, part: usize) -> Option<bool> {
     }
 }
 
-//@ harness name=c6_leaf_quad_fwd_a prop=C08,C01,C20 tier=quick bits=288 est=150 desc="L: forward_quad(beta, m, r) vs RFC 2612 Q, equations C' = C ^ f1(D, Km0, Kr0) and B' = B ^ f2(C', Km1, Kr1) (f1/f2 with S1..S4), every 128-bit beta, every masking key m, every rotation key r (all u8 values)"
+//@ harness name=c6_leaf_quad_fwd_a prop=C08,C01,C20 tier=quick bits=288 est=135 desc="L: forward_quad(beta, m, r) vs RFC 2612 Q, equations C' = C ^ f1(D, Km0, Kr0) and B' = B ^ f2(C', Km1, Kr1) (f1/f2 with S1..S4), every 128-bit beta, every masking key m, every rotation key r (all u8 values)"
 verif_harness! {
     name: c6_leaf_quad_fwd_a,
     bytes: 36,
@@ -228,7 +228,7 @@ verif_harness! {
     prop: |inp| { quad_prop(inp, true, 0) }
 }
 
-//@ harness name=c6_leaf_quad_fwd_b prop=C08,C01,C20 tier=quick bits=288 est=150 desc="L: forward_quad vs RFC 2612 Q, equations A' = A ^ f3(B', Km2, Kr2) and D' = D ^ f1(A', Km3, Kr3), every beta, m, r; with _a: forward_quad == Q"
+//@ harness name=c6_leaf_quad_fwd_b prop=C08,C01,C20 tier=quick bits=288 est=145 desc="L: forward_quad vs RFC 2612 Q, equations A' = A ^ f3(B', Km2, Kr2) and D' = D ^ f1(A', Km3, Kr3), every beta, m, r; with _a: forward_quad == Q"
 verif_harness! {
     name: c6_leaf_quad_fwd_b,
     bytes: 36,
@@ -236,7 +236,7 @@ verif_harness! {
     prop: |inp| { quad_prop(inp, true, 1) }
 }
 
-//@ harness name=c6_leaf_quad_rev_a prop=C08,C01,C20 tier=quick bits=288 est=150 desc="L: reverse_quad(beta, m, r) vs RFC 2612 QBAR, equations D' = D ^ f1(A, Km3, Kr3) and A' = A ^ f3(B, Km2, Kr2), every beta, m, r"
+//@ harness name=c6_leaf_quad_rev_a prop=C08,C01,C20 tier=quick bits=288 est=155 desc="L: reverse_quad(beta, m, r) vs RFC 2612 QBAR, equations D' = D ^ f1(A, Km3, Kr3) and A' = A ^ f3(B, Km2, Kr2), every beta, m, r"
 verif_harness! {
     name: c6_leaf_quad_rev_a,
     bytes: 36,
@@ -244,7 +244,7 @@ verif_harness! {
     prop: |inp| { quad_prop(inp, false, 0) }
 }
 
-//@ harness name=c6_leaf_quad_rev_b prop=C08,C01,C20 tier=quick bits=288 est=150 desc="L: reverse_quad vs RFC 2612 QBAR, equations B' = B ^ f2(C, Km1, Kr1) and C' = C ^ f1(D', Km0, Kr0), every beta, m, r; with _a: reverse_quad == QBAR"
+//@ harness name=c6_leaf_quad_rev_b prop=C08,C01,C20 tier=quick bits=288 est=110 desc="L: reverse_quad vs RFC 2612 QBAR, equations B' = B ^ f2(C, Km1, Kr1) and C' = C ^ f1(D', Km0, Kr0), every beta, m, r; with _a: reverse_quad == QBAR"
 verif_harness! {
     name: c6_leaf_quad_rev_b,
     bytes: 36,
@@ -258,7 +258,7 @@ ufn!(uf_f1, (d: u32, km: u32, kr: u8) -> u32, r::f1);
 ufn!(uf_f2, (d: u32, km: u32, kr: u8) -> u32, r::f2);
 ufn!(uf_f3, (d: u32, km: u32, kr: u8) -> u32, r::f3);
 
-//@ harness name=c6_leaf_quad_inv prop=C01 tier=quick bits=288 est=30 desc="L (structure, on the oracle's quad-rounds with f1/f2/f3 uninterpreted): QBAR(Q(beta)) == beta and Q(QBAR(beta)) == beta under the same (m, r), every beta, m, r.  With c6_leaf_quad_fwd/_rev (real forward_quad/reverse_quad == Q/QBAR) this makes the real quads mutually inverse per (m, r) -- the assumption of the keyed bijections in the round-trip harnesses"
+//@ harness name=c6_leaf_quad_inv prop=C01 tier=quick bits=288 est=10 desc="L (structure, on the oracle's quad-rounds with f1/f2/f3 uninterpreted): QBAR(Q(beta)) == beta and Q(QBAR(beta)) == beta under the same (m, r), every beta, m, r.  With c6_leaf_quad_fwd/_rev (real forward_quad/reverse_quad == Q/QBAR) this makes the real quads mutually inverse per (m, r) -- the assumption of the keyed bijections in the round-trip harnesses"
 verif_harness! {
     name: c6_leaf_quad_inv,
     bytes: 36,
@@ -297,7 +297,7 @@ fn oct_prop(inp: &[u8; 72], part: usize) -> Option<bool> {
     })
 }
 
-//@ harness name=c6_leaf_octave_0 prop=C08,C20 tier=quick bits=576 est=120 desc="L: forward_octave(kappa, m[8], r[8]) vs RFC 2612 W, equation G' = G ^ f1(H, Tm0, Tr0) (primed = output words of the real function), every 256-bit kappa, every 8 masking / 8 rotation constants"
+//@ harness name=c6_leaf_octave_0 prop=C08,C20 tier=thorough bits=576 est=330 desc="L: forward_octave(kappa, m[8], r[8]) vs RFC 2612 W, equation G' = G ^ f1(H, Tm0, Tr0) (primed = output words of the real function), every 256-bit kappa, every 8 masking / 8 rotation constants"
 verif_harness! {
     name: c6_leaf_octave_0,
     bytes: 72,
@@ -305,7 +305,7 @@ verif_harness! {
     prop: |inp| { oct_prop(inp, 0) }
 }
 
-//@ harness name=c6_leaf_octave_1 prop=C08,C20 tier=quick bits=576 est=120 desc="L: forward_octave(kappa, m[8], r[8]) vs RFC 2612 W, equation F' = F ^ f2(G', Tm1, Tr1) (primed = output words of the real function), every 256-bit kappa, every 8 masking / 8 rotation constants"
+//@ harness name=c6_leaf_octave_1 prop=C08,C20 tier=thorough bits=576 est=650 desc="L: forward_octave(kappa, m[8], r[8]) vs RFC 2612 W, equation F' = F ^ f2(G', Tm1, Tr1) (primed = output words of the real function), every 256-bit kappa, every 8 masking / 8 rotation constants"
 verif_harness! {
     name: c6_leaf_octave_1,
     bytes: 72,
@@ -313,7 +313,7 @@ verif_harness! {
     prop: |inp| { oct_prop(inp, 1) }
 }
 
-//@ harness name=c6_leaf_octave_2 prop=C08,C20 tier=quick bits=576 est=120 desc="L: forward_octave(kappa, m[8], r[8]) vs RFC 2612 W, equation E' = E ^ f3(F', Tm2, Tr2) (primed = output words of the real function), every 256-bit kappa, every 8 masking / 8 rotation constants"
+//@ harness name=c6_leaf_octave_2 prop=C08,C20 tier=thorough bits=576 est=230 desc="L: forward_octave(kappa, m[8], r[8]) vs RFC 2612 W, equation E' = E ^ f3(F', Tm2, Tr2) (primed = output words of the real function), every 256-bit kappa, every 8 masking / 8 rotation constants"
 verif_harness! {
     name: c6_leaf_octave_2,
     bytes: 72,
@@ -321,7 +321,7 @@ verif_harness! {
     prop: |inp| { oct_prop(inp, 2) }
 }
 
-//@ harness name=c6_leaf_octave_3 prop=C08,C20 tier=quick bits=576 est=120 desc="L: forward_octave(kappa, m[8], r[8]) vs RFC 2612 W, equation D' = D ^ f1(E', Tm3, Tr3) (primed = output words of the real function), every 256-bit kappa, every 8 masking / 8 rotation constants"
+//@ harness name=c6_leaf_octave_3 prop=C08,C20 tier=thorough bits=576 est=225 desc="L: forward_octave(kappa, m[8], r[8]) vs RFC 2612 W, equation D' = D ^ f1(E', Tm3, Tr3) (primed = output words of the real function), every 256-bit kappa, every 8 masking / 8 rotation constants"
 verif_harness! {
     name: c6_leaf_octave_3,
     bytes: 72,
@@ -329,7 +329,7 @@ verif_harness! {
     prop: |inp| { oct_prop(inp, 3) }
 }
 
-//@ harness name=c6_leaf_octave_4 prop=C08,C20 tier=quick bits=576 est=120 desc="L: forward_octave(kappa, m[8], r[8]) vs RFC 2612 W, equation C' = C ^ f2(D', Tm4, Tr4) (primed = output words of the real function), every 256-bit kappa, every 8 masking / 8 rotation constants"
+//@ harness name=c6_leaf_octave_4 prop=C08,C20 tier=thorough bits=576 est=325 desc="L: forward_octave(kappa, m[8], r[8]) vs RFC 2612 W, equation C' = C ^ f2(D', Tm4, Tr4) (primed = output words of the real function), every 256-bit kappa, every 8 masking / 8 rotation constants"
 verif_harness! {
     name: c6_leaf_octave_4,
     bytes: 72,
@@ -337,7 +337,7 @@ verif_harness! {
     prop: |inp| { oct_prop(inp, 4) }
 }
 
-//@ harness name=c6_leaf_octave_5 prop=C08,C20 tier=quick bits=576 est=120 desc="L: forward_octave(kappa, m[8], r[8]) vs RFC 2612 W, equation B' = B ^ f3(C', Tm5, Tr5) (primed = output words of the real function), every 256-bit kappa, every 8 masking / 8 rotation constants"
+//@ harness name=c6_leaf_octave_5 prop=C08,C20 tier=thorough bits=576 est=240 desc="L: forward_octave(kappa, m[8], r[8]) vs RFC 2612 W, equation B' = B ^ f3(C', Tm5, Tr5) (primed = output words of the real function), every 256-bit kappa, every 8 masking / 8 rotation constants"
 verif_harness! {
     name: c6_leaf_octave_5,
     bytes: 72,
@@ -345,7 +345,7 @@ verif_harness! {
     prop: |inp| { oct_prop(inp, 5) }
 }
 
-//@ harness name=c6_leaf_octave_6 prop=C08,C20 tier=quick bits=576 est=120 desc="L: forward_octave(kappa, m[8], r[8]) vs RFC 2612 W, equation A' = A ^ f1(B', Tm6, Tr6) (primed = output words of the real function), every 256-bit kappa, every 8 masking / 8 rotation constants"
+//@ harness name=c6_leaf_octave_6 prop=C08,C20 tier=thorough bits=576 est=165 desc="L: forward_octave(kappa, m[8], r[8]) vs RFC 2612 W, equation A' = A ^ f1(B', Tm6, Tr6) (primed = output words of the real function), every 256-bit kappa, every 8 masking / 8 rotation constants"
 verif_harness! {
     name: c6_leaf_octave_6,
     bytes: 72,
@@ -353,7 +353,7 @@ verif_harness! {
     prop: |inp| { oct_prop(inp, 6) }
 }
 
-//@ harness name=c6_leaf_octave_7 prop=C08,C20 tier=quick bits=576 est=120 desc="L: forward_octave(kappa, m[8], r[8]) vs RFC 2612 W, equation H' = H ^ f2(A', Tm7, Tr7) (primed = output words of the real function), every 256-bit kappa, every 8 masking / 8 rotation constants; the eight harnesses c6_leaf_octave_0..7 together: forward_octave == W"
+//@ harness name=c6_leaf_octave_7 prop=C08,C20 tier=thorough bits=576 est=445 desc="L: forward_octave(kappa, m[8], r[8]) vs RFC 2612 W, equation H' = H ^ f2(A', Tm7, Tr7) (primed = output words of the real function), every 256-bit kappa, every 8 masking / 8 rotation constants; the eight harnesses c6_leaf_octave_0..7 together: forward_octave == W"
 verif_harness! {
     name: c6_leaf_octave_7,
     bytes: 72,
@@ -418,7 +418,7 @@ pub fn rec_ks(c: &mut Cast6, key: &[u8; 32]) {
     c.key_schedule(key)
 }
 
-//@ harness name=c6_new_from_slice prop=C08,C20 tier=quick bits=259 stub=1 est=60 desc="W: Cast6::new_from_slice(key[..len]) for symbolic len in {16,20,24,28,32}, every key: key_schedule is called exactly once, on a zeroed state, with the key zero-padded to 256 bits, and its result is returned unchanged (key_schedule replaced by a recorder returning an arbitrary state); with c6_key_schedule: conformance for the five key lengths"
+//@ harness name=c6_new_from_slice prop=C08,C20 tier=quick bits=259 stub=1 est=20 desc="W: Cast6::new_from_slice(key[..len]) for symbolic len in {16,20,24,28,32}, every key: key_schedule is called exactly once, on a zeroed state, with the key zero-padded to 256 bits, and its result is returned unchanged (key_schedule replaced by a recorder returning an arbitrary state); with c6_key_schedule: conformance for the five key lengths"
 verif_harness! {
     name: c6_new_from_slice,
     bytes: 273,
@@ -484,7 +484,7 @@ fn arb_state(inp: &[u8; 256]) -> (Cast6, [[u32; 4]; 12], [[u8; 4]; 12], [u8; 16]
     (Cast6 { masking: km, rotate: kr }, km, kr, take(inp, 240))
 }
 
-//@ harness name=c6_wire_enc prop=C08,C20 tier=quick bits=2048 stub=1 est=100 desc="W: encrypt_block on an arbitrary (masking, rotate) state (superset of all keys), every block == RFC 2612: Q_0..Q_5 then QBAR_6..QBAR_11, big-endian words; quads uninterpreted (shared)"
+//@ harness name=c6_wire_enc prop=C08,C20 tier=quick bits=2048 stub=1 est=25 desc="W: encrypt_block on an arbitrary (masking, rotate) state (superset of all keys), every block == RFC 2612: Q_0..Q_5 then QBAR_6..QBAR_11, big-endian words; quads uninterpreted (shared)"
 verif_harness! {
     name: c6_wire_enc,
     bytes: 256,
@@ -498,7 +498,7 @@ verif_harness! {
     }
 }
 
-//@ harness name=c6_wire_dec prop=C08,C20 tier=quick bits=2048 stub=1 est=100 desc="W: decrypt_block on an arbitrary (masking, rotate) state, every block == RFC 2612 decryption: Q_11..Q_6 then QBAR_5..QBAR_0; quads uninterpreted (shared)"
+//@ harness name=c6_wire_dec prop=C08,C20 tier=quick bits=2048 stub=1 est=25 desc="W: decrypt_block on an arbitrary (masking, rotate) state, every block == RFC 2612 decryption: Q_11..Q_6 then QBAR_5..QBAR_0; quads uninterpreted (shared)"
 verif_harness! {
     name: c6_wire_dec,
     bytes: 256,
@@ -512,7 +512,7 @@ verif_harness! {
     }
 }
 
-//@ harness name=c6_roundtrip_ed prop=C01 tier=quick bits=2048 stub=1 est=100 desc="W: decrypt(encrypt(b)) == b on an arbitrary (masking, rotate) state (superset of all keys of the five lengths), every block; forward_quad / reverse_quad are uninterpreted keyed bijections, mutually inverse per (m, r) (leaf lemma c6_leaf_quad_inv)"
+//@ harness name=c6_roundtrip_ed prop=C01 tier=quick bits=2048 stub=1 est=35 desc="W: decrypt(encrypt(b)) == b on an arbitrary (masking, rotate) state (superset of all keys of the five lengths), every block; forward_quad / reverse_quad are uninterpreted keyed bijections, mutually inverse per (m, r) (leaf lemma c6_leaf_quad_inv)"
 verif_harness! {
     name: c6_roundtrip_ed,
     bytes: 256,
@@ -527,7 +527,7 @@ verif_harness! {
     }
 }
 
-//@ harness name=c6_roundtrip_de prop=C01 tier=quick bits=2048 stub=1 est=100 desc="W: encrypt(decrypt(b)) == b on an arbitrary (masking, rotate) state, every block; quads as uninterpreted keyed bijections"
+//@ harness name=c6_roundtrip_de prop=C01 tier=quick bits=2048 stub=1 est=35 desc="W: encrypt(decrypt(b)) == b on an arbitrary (masking, rotate) state, every block; quads as uninterpreted keyed bijections"
 verif_harness! {
     name: c6_roundtrip_de,
     bytes: 256,
